@@ -193,6 +193,24 @@ def specs_obs(job):
 _MODS = {}
 
 
+class _Text(str):
+    """a str SUBCLASS (execnet serialises by exact type: not transferable)"""
+
+
+def _extra_arg(k):
+    """1: opaque object, 2: str subclass, 3: IntEnum member, 4: object nested in a list, 5: a transferable non-string"""
+    import enum
+    if k == 2:
+        return _Text("styled")
+    if k == 3:
+        return enum.IntEnum("Code", "A B").B
+    if k == 4:
+        return ["fine", object()]
+    if k == 5:
+        return 2.5
+    return object()
+
+
 def _make_class(kind, modname, clsname):
     """kind: plain | ctor2 (constructor needs two arguments) | ctorboom (constructor raises ValueError when rebuilt)"""
     if kind == "ctor2":
@@ -246,7 +264,7 @@ def warn_obs(job):
             else:
                 inst = cls(*args)
             if msg[4]:
-                inst.args = inst.args + (object(),)
+                inst.args = inst.args + (_extra_arg(msg[4]),)
             message = inst
             cat = type(inst)
         else:
@@ -260,6 +278,13 @@ def warn_obs(job):
             cat = None
         wm_ = warnings.WarningMessage(message=message, category=cat, filename=job["filename"], lineno=job["lineno"])
         data = serialize_warning_message(wm_)
+        # the wire: what channel.send does to the event (a DumpError here is raised inside the worker's hook)
+        import execnet
+        try:
+            data = execnet.loads(execnet.dumps(data))
+            wire = "ok"
+        except execnet.DumpError:
+            wire = "DumpError"
         text = data["message_str"]
         args_sent = data["message_args"]
         def show(out):
@@ -299,7 +324,7 @@ def warn_obs(job):
             handled = show(queued[0][1]["warning_message"])
         else:
             handled = ["written-off", names]
-        return {"data": sent, "result": direct, "handled": handled}
+        return {"data": sent, "result": direct, "handled": handled, "wire": wire}
     finally:
         for mn in created:
             sys.modules.pop(mn, None)
